@@ -262,6 +262,13 @@ def gen_design(rng, i: int) -> dict | None:
         return None      # a deleted targeton/region end: the targeton does not exist in the background genome (not C15's subject)
     d['bg'] = recs
     d.pop('mask', None)
+    if recs and rng.random() < 0.3:
+        # a BED mask interval (0-based, half-open) right on a variant or one base off it: only the variant that starts inside is ignored
+        rec = rng.choice(recs)
+        p = bg.reported(rec['pos'], rec['ref'].upper(), rec['alts'][0].upper())[0]
+        lo, hi = rng.choice([(p - 1, p), (p - 1, p), (p, p + 1), (p - 2, p - 1), (p - 3, p + 2)])
+        d['mask'] = [[d['contig'], max(0, lo), hi]]
+        d['c15_kind'] = d.get('c15_kind', '?') + '+mask'
     return d
 
 
@@ -326,7 +333,7 @@ def check(ctx: Ctx, d: dict, r: dict, exprs: list, meta: list):
             ctx.violation('spec_violation', f'refused run left library files of the offending targeton: {left}', {'surface': 'file', 'design': d, 'files': left})
     # the decision loop of the model on the classified variants of each targeton up to the verdict
     tb = codonspec.Table(d.get('codon_table'))
-    if (o.get('force_fs') and not o.get('force_ns')) or 'pam_on_bg' == d.get('c15_kind'):
+    if (o.get('force_fs') and not o.get('force_ns')) or (d.get('c15_kind') or '').startswith('pam_on_bg'):
         return
     for i, mine in enumerate(per_t):
         want_err = refused and i == idx
